@@ -453,6 +453,16 @@ func (e *Exec) model(s *State, c *ssa.Call, fn *ssa.Function, full string, args 
 		// an unknown string, a function of the arguments; nothing says it equals
 		// its argument
 		return ret(atom(pureAtomName(full[strings.LastIndex(full, ".")+1:], []string{t.String(), textArg(args[1]).String()})))
+	case "strings.LastIndex", "strings.Index":
+		as, ok1 := textArg(args[0]).concrete()
+		bs, ok2 := textArg(args[1]).concrete()
+		if !ok1 || !ok2 {
+			unsupported("%s of unknown strings", full)
+		}
+		if full == "strings.Index" {
+			return ret(mkInt(int64(strings.Index(as, bs))))
+		}
+		return ret(mkInt(int64(strings.LastIndex(as, bs))))
 	case "sort.Strings":
 		sl, ok := args[0].(SliceV)
 		if !ok {
